@@ -120,6 +120,9 @@ type Knobs struct {
 	// then starts counting at StartPO+1), e.g. one caught in accepted status by an export, possibly
 	// for a purchaser no transaction could have named
 	GenesisOrder *GenOrder `json:"genesis_order,omitempty"`
+	// WhitelistGov: the governance account is whitelisted as a purchaser from genesis (it can raise
+	// orders through proposals)
+	WhitelistGov bool `json:"whitelist_gov,omitempty"`
 }
 
 type GenOrder struct {
@@ -291,6 +294,9 @@ func BuildGenesis(k *Knobs, actors []*Actor) (json.RawMessage, []abci.ValidatorU
 	eg.TotalSpent = sdk.NewInt64Coin(k.Ent.Denom, 0)
 	for _, w := range k.Whitelist {
 		eg.Whitelist = append(eg.Whitelist, actors[w].Bech())
+	}
+	if k.WhitelistGov {
+		eg.Whitelist = append(eg.Whitelist, ModuleAddr(govtypes.ModuleName).String())
 	}
 	if k.UnbackedLocked != "" {
 		c := sdk.NewCoin(k.Ent.Denom, mustInt(k.UnbackedLocked))
